@@ -180,7 +180,12 @@ class OptionsContainer(ObjectWithFields):
             opt: DashOption = self._parameter_map[key]
             if use is not None and (opt.usage & use) == 0:
                 continue
-            destination[getattr(opt, attr_name)] = opt.to_string(value)
+            text = opt.to_string(value)
+            if text is None:
+                # the spelling of "no value" that the option parsers
+                # understand. str(None) is not one of them
+                text = 'none'
+            destination[getattr(opt, attr_name)] = text
         return destination
 
     def remove_default_values(self, defaults: Optional["OptionsContainer"] = None) -> JsonObject:
